@@ -4,6 +4,7 @@ import (
 	"bytes"
 	"fmt"
 	"testing"
+	"time"
 
 	"verifharness/vlib"
 
@@ -21,7 +22,7 @@ type Msg struct {
 	FragSizes []int `json:"frag_sizes,omitempty"` // fragment payload sizes (the rest goes in the last frame)
 	CtlAt     []int `json:"ctl_at,omitempty"`     // after which fragments a ping/pong is interleaved
 	LenEnc    int   `json:"len_enc,omitempty"`
-	Compress  bool  `json:"compress,omitempty"` // this message compressed (ref encoder)
+	Compress  bool  `json:"compress,omitempty"`   // this message compressed (ref encoder)
 	PingAfter int   `json:"ping_after,omitempty"` // nbio sender: write a ping (1) / pong (2) after this message
 }
 
@@ -114,6 +115,10 @@ func segments(c Case, wire []byte) [][]byte {
 }
 
 func runCase(c Case) vlib.Result {
+	return vlib.WithWatchdog(60*time.Second, "the WebSocket round trip", func() vlib.Result { return runCaseInner(c) })
+}
+
+func runCaseInner(c Case) vlib.Result {
 	res := vlib.Result{Classes: []string{"pipeline=" + c.Pipeline}}
 	if c.Compress {
 		res.Classes = append(res.Classes, fmt.Sprintf("compress-level=%d", c.Level))
